@@ -107,6 +107,13 @@ class LazyRng(struct.PyTreeNode):
     return LazyRng(key, ())
 
 
+def _copy_dict_spine(x: Any) -> Any:
+  """Copies the plain dicts of a nested dict, sharing the leaves."""
+  if type(x) is dict:  # pylint: disable=unidiomatic-typecheck
+    return {k: _copy_dict_spine(v) for k, v in x.items()}
+  return x
+
+
 def _fold_in_static(
   rng: PRNGKey, data: typing.Collection[PRNGFoldable]
 ) -> PRNGKey:
@@ -788,7 +795,9 @@ class Scope:
         for k, v in val.items():
           put(target[key], k, v)
       else:
-        target[key] = val
+        # Store a copy of (nested) plain dicts: a later merge into this entry
+        # must not write into a dict the caller still holds.
+        target[key] = _copy_dict_spine(val)
 
     put(variables, name, value)
 
